@@ -430,6 +430,8 @@ def run(ctx, model_ok=True):
     check_dual(ctx, (2, 3), (3, 2), 3, False, True)
     check_dual(ctx, (3, 3), (3, 3), 3, True, True)
     check_dual(ctx, (3, 2), (3, 2), 1, False, True)      # rectangular with in = out: dims may be omitted
+    check_dual(ctx, (2, 17), (2, 16), 1, False, True)    # Choi matrix 4 x 272: more than 256 columns with few rows
+    check_dual(ctx, (17, 2), (16, 2), 1, False, False)   # and 272 x 4
     check_compl(ctx, 2, 2)
     check_compl(ctx, 3, 2)
     if quick:
